@@ -85,3 +85,67 @@ def run_add(call):
     except BaseException as ex:
         return {"kind": "raise", "exc": type(ex).__name__, "mro": [c.__name__ for c in type(ex).__mro__],
                 "msg": str(ex)[:300], "tb": traceback.format_exc()[-1200:]}
+
+
+def run_brackets(call):
+    """bracket_indices / marginal_rates / rate_from_tax_base / threshold_from_tax_base on the real class with and without a factor:
+    the bracket reported for a base is the one containing it ([factor x t_k, factor x t_k+1)), a vector gives what each base alone
+    gives; and a history: calc, change the scale in place, calc again - every calc is the mathematical value of the scale as it is."""
+    import numpy
+    from openfisca_core import taxscales
+    try:
+        bad = []
+        t, v = [float(x) for x in call["thresholds"]], [float(x) for x in call["values"]]
+        bases = [float(x) for x in call["bases"]]
+        for factor in call.get("factors", [1.0]):
+            s = taxscales.MarginalRateTaxScale()
+            for a, b in zip(t, v):
+                s.add_bracket(a, b)
+            vec = numpy.array(bases)
+            kw = {} if factor == 1.0 and not call.get("always_factor") else {"factor": factor}
+            idx = s.bracket_indices(vec, **kw)
+            rates = s.marginal_rates(vec, **kw)
+            for j, b in enumerate(bases):
+                if b < factor * t[0]:
+                    continue
+                k = max(q for q in range(len(t)) if factor * t[q] <= b)
+                if int(idx[j]) != k:
+                    bad.append(f"bracket_indices(factor={factor})[base {b}] = {int(idx[j])}, the bracket containing it is {k}")
+                if abs(float(rates[j]) - v[k]) > 1e-9:
+                    bad.append(f"marginal_rates(factor={factor})[base {b}] = {float(rates[j])}, the rate of its bracket is {v[k]}")
+                alone = s.bracket_indices(numpy.array([b]), **kw)
+                if int(alone[0]) != int(idx[j]):
+                    bad.append(f"bracket_indices(factor={factor}) of base {b}: {int(idx[j])} in the vector, {int(alone[0])} alone")
+            if factor == 1.0:
+                for j, b in enumerate(bases):
+                    if b >= t[0]:
+                        k = max(q for q in range(len(t)) if t[q] <= b)
+                        if abs(float(s.rate_from_tax_base(numpy.array(bases))[j]) - v[k]) > 1e-9 or abs(float(s.threshold_from_tax_base(numpy.array(bases))[j]) - t[k]) > 1e-9:
+                            bad.append(f"rate / threshold from tax base {b} are not those of bracket {k}")
+        # history on each kind of scale: calc, in-place change, calc
+        for kind, cls in (("marginal_rate", taxscales.MarginalRateTaxScale), ("linear_average", taxscales.LinearAverageRateTaxScale)):
+            s = cls()
+            for a, b in zip(t, v):
+                s.add_bracket(a, b)
+            vec = numpy.array(bases)
+            s.calc(vec)
+            s.multiply_rates(2.0, inplace=True)
+            v2 = [2.0 * x for x in v]
+            got = s.calc(vec)
+            for b, g in zip(bases, got):
+                exp = oracle(kind, [Fr(x).limit_denominator(1000) for x in t], [Fr(x).limit_denominator(1000) for x in v2], Fr(b).limit_denominator(1000))
+                if exp is not None and abs(float(g) - float(exp)) > 1e-6 * max(1.0, abs(float(exp))):
+                    bad.append(f"{kind}: calc after an in-place multiply_rates(2) gives {float(g)} for base {b}, the scale as it is now gives {float(exp)}")
+                    break
+            s.multiply_thresholds(3.0, inplace=True)
+            t3 = [3.0 * x for x in t]
+            got = s.calc(vec)
+            for b, g in zip(bases, got):
+                exp = oracle(kind, [Fr(x).limit_denominator(1000) for x in t3], [Fr(x).limit_denominator(1000) for x in v2], Fr(b).limit_denominator(1000))
+                if exp is not None and abs(float(g) - float(exp)) > 1e-6 * max(1.0, abs(float(exp))):
+                    bad.append(f"{kind}: calc after an in-place multiply_thresholds(3) gives {float(g)} for base {b}, the scale as it is now gives {float(exp)}")
+                    break
+        return {"kind": "return", "value": {"ok": not bad, "mismatches": bad[:4]}}
+    except BaseException as ex:
+        return {"kind": "raise", "exc": type(ex).__name__, "mro": [c.__name__ for c in type(ex).__mro__],
+                "msg": str(ex)[:300], "tb": traceback.format_exc()[-1200:]}
